@@ -1,5 +1,6 @@
 """C12 — Compare decides semantic equality of JSON values."""
-import random, copy
+import random, copy, sys
+sys.setrecursionlimit(30000)
 from .common import *
 
 MODEL_FILES = 'CompareDefs.v (cJSON_Compare, get_object_item, case_insensitive_strcmp), Dbl.v (compare_double)'
@@ -161,6 +162,12 @@ def generate(ctx):
             if c ^ 0x20 < 0x21 or c ^ 0x20 > 0x7e: continue
             for cs in (0, 1):
                 add(Obj([(k1, 1)]), Obj([(k2, 1)]), cs, False, 'fold-sweep')
+    # values nested about as deep as the parser accepts (and deeper, as the construction API allows): equality has no depth limit
+    if ctx.get('seed_index', 0) == 0:
+        for depth in (998, 999, 1000, 1001, 1200):
+            v = 1; w = 2
+            for _ in range(depth): v = [v]; w = [w]
+            add(v, copy.deepcopy(v), 1, False, 'deep'); add(v, w, 1, False, 'deep'); add(v, v, 1, True, 'deep')
     specials = [float('inf'), float('-inf'), float('nan'), 1.7976931348623157e308, 0.0, -0.0, 5e-324, 1.0, 1.0000000000000002, 0.9999999999999999, 1e308, 2.2250738585072014e-308, 4503599627370496.0, 4503599627370497.0]
     for x in specials:
         for y in specials:
